@@ -44,6 +44,7 @@ CONSTANTS
   MPickleSlots,    \* TRUE: the slot part is pickled too (repaired); FALSE: only __dict__ (pinned)
   MEqFlat,         \* TRUE (mutant): __eq__ compares the flattened traversals (operators in pre-order, leaves left to right)
   MReuseEqual,     \* TRUE (mutant): when the right operand compares equal to the left one its value is not computed but reused
+  MCacheKeyBuffer, \* TRUE (mutant): the operand cache identifies an array argument by the memory it occupies, not by its content
   MCacheKeyTime    \* TRUE: the operand cache is keyed by the time argument as well (pinned and repaired)
 
 VARIABLES
@@ -187,6 +188,12 @@ Expect(tr, f) == IF ~DimsFit(tr, f) THEN "fail"
 \* scalar calls at one point, array call at all points
 Args == {"s1", "s2", "s3", "arr"}
 ArgPts(a) == CASE a = "s1" -> <<1>> [] a = "s2" -> <<2>> [] a = "s3" -> <<3>> [] a = "arr" -> <<1, 2, 3>>
+               [] a = "arr2" -> <<3, 1, 2>> [] a = "arr3" -> <<2, 2, 1>>
+\* how the points of an array call are DELIVERED over a sequence of calls: array contents arr / arr2 / arr3 (same shape)
+\* in  "b1" an owned buffer overwritten in place between calls | "v1" a slice of a larger base buffer, overwritten in place
+\*   | "s1" a strided view of a base buffer, overwritten in place | "tmp" temporaries created for the call and dropped
+ArrArgs == {"arr", "arr2", "arr3"}
+Bufs == {"b1", "v1", "s1", "tmp"}
 EvalAt(tr, a, t) == [n \in 1..Len(ArgPts(a)) |-> Eval(tr, ArgPts(a)[n], t)]
 
 -----------------------------------------------------------------------------
@@ -251,7 +258,7 @@ TEff(o, f, a, t) == IF MCacheKeyTime THEN t
 CallVals(tr, o, f, t) == [a \in Args |-> IF IsLeaf(tr) THEN EvalMechAt(tr, a, t) ELSE EvalMechAt(tr, a, TEff(o, f, a, t))]
 
 None == [what |-> "none"]
-Obj0 == [alive |-> FALSE, td |-> "unset", filled |-> {}, first |-> {}, eq |-> "unset"]
+Obj0 == [alive |-> FALSE, td |-> "unset", filled |-> {}, first |-> {}, bufs |-> {}, eq |-> "unset"]
 
 -----------------------------------------------------------------------------
 Init == /\ tree \in T0 /\ pc = "grow" /\ orig = Obj0 /\ copy = Obj0
@@ -303,10 +310,31 @@ Variants(tr) == {tr} \cup (IF IsLeaf(tr) THEN T0 \ {Leaf("I"), Leaf("F")}
                            ELSE IF HasTwin(tr) THEN {Node(o, tr.l, tr.r) : o \in Ops}
                            ELSE {Node(tr.op, tr.r, tr.l), tr.l, tr.r} \cup {Node(o, tr.l, tr.r) : o \in Ops} \cup SameFlat(tr))
 
+\* an array call whose points arrive as content a in buffer b.  A cache that identifies the argument by its memory answers,
+\* for its caching operands, with the value of the content it first saw there at that time
+StaleArg(o, f, b, t, a) == IF MCacheKeyBuffer /\ \E e \in o.bufs : e[1] = f /\ e[2] = b /\ e[3] = t
+                           THEN (CHOOSE e \in o.bufs : e[1] = f /\ e[2] = b /\ e[3] = t)[4] ELSE a
+RECURSIVE EvalD(_, _, _, _, _)
+EvalD(tr, pcur, pold, t, root) ==
+  IF IsLeaf(tr) THEN (IF tr.k \in {"PT", "PTb"} /\ ~root THEN LeafVal(tr.k, pold, t) ELSE LeafVal(tr.k, pcur, t))
+  ELSE Apply(tr.op, EvalD(tr.l, pcur, pold, t, FALSE), EvalD(tr.r, pcur, pold, t, FALSE))
+Deliver(f, t, a, b, fill) ==
+  /\ pc = "built" /\ a \in ArrArgs /\ b \in Bufs
+  /\ fill \subseteq ParamPaths(tree, "o")
+  /\ LET sa == StaleArg(orig, f, b, t, a) IN
+       last' = [what |-> "deliver", f |-> f, t |-> t, a |-> a, b |-> b, kind |-> Expect(tree, f),
+                vals |-> [n \in 1..3 |-> EvalD(tree, ArgPts(a)[n], ArgPts(sa)[n], t, TRUE)]]
+  /\ orig' = [orig EXCEPT !.filled = orig.filled \cup fill,
+                          !.bufs = IF b # "tmp" /\ Expect(tree, f) = "val" /\ ~\E e \in orig.bufs : e[1] = f /\ e[2] = b /\ e[3] = t
+                                   THEN orig.bufs \cup {<<f, b, t, a>>} ELSE orig.bufs]
+  /\ ncalls' = ncalls + 1
+  /\ UNCHANGED <<tree, pc, copy, pickled>>
+
 Clear ==
   /\ pc = "built"
   /\ LET R == ClearRes(tree, "o") IN
-       /\ orig' = [orig EXCEPT !.filled = orig.filled \ R.c, !.first = IF orig.filled \subseteq R.c THEN {} ELSE orig.first]
+       /\ orig' = [orig EXCEPT !.filled = orig.filled \ R.c, !.first = IF orig.filled \subseteq R.c THEN {} ELSE orig.first,
+                               !.bufs = IF orig.filled \subseteq R.c THEN {} ELSE orig.bufs]
        /\ last' = [what |-> "clear", who |-> "orig", ok |-> R.ok, left |-> orig.filled \ R.c]
   /\ pc' = "cleared"
   /\ UNCHANGED <<tree, copy, pickled, ncalls>>
@@ -357,12 +385,18 @@ MCall == pc = "built" /\ \E f \in Forms, t \in Times :
            /\ t \in CallTimes(f) /\ ncalls < 2 /\ last.what \in {"none", "call"}
            /\ (last.what = "call" => (last.f = f /\ FormHasT(f) /\ last.t # t))  \* second call: same form, other time
            /\ Call(f, t, FillOf(f))
+\* at most two deliveries, into the same owned buffer, at one time, in the argument form the expression answers
+ValForm(f) == Expect(tree, f) = "val" /\ f = (IF TimeDep(tree) THEN "F3T" ELSE IF DimsFit(tree, "F3") THEN "F3" ELSE "F2")
+MDeliver == pc = "built" /\ ncalls < 2 /\ last.what \in {"none", "deliver"}
+            /\ \E f \in Forms, a \in ArrArgs :
+                  /\ ValForm(f) /\ (last.what = "deliver" => last.a # a)
+                  /\ Deliver(f, IF FormHasT(f) THEN Q ELSE 0, a, "b1", FillOf(f))
 MCallCopy == pc = "copied" /\ \E f \in Forms, t \in Times : t \in CallTimes(f) /\ ncalls < 1 /\ CallCopy(f, t, FillOf(f))
 MEq == last.what = "none" /\ \E other \in Variants(tree) : Eq(other)
 MPickle == pc = "cleared" /\ Pickle
 MClearCopy == last.what # "clear" /\ ClearCopy
 MSolve == pc = "copied" /\ Solve
-Next == Grow \/ Twin \/ Build \/ MCall \/ MEq \/ Clear \/ MPickle \/ Unpickle \/ MCallCopy \/ MClearCopy \/ MSolve
+Next == Grow \/ Twin \/ Build \/ MDeliver \/ MCall \/ MEq \/ Clear \/ MPickle \/ Unpickle \/ MCallCopy \/ MClearCopy \/ MSolve
 
 Spec == Init /\ [][Next]_vars
 
@@ -374,9 +408,13 @@ TypeOK == /\ pc \in {"grow", "twin", "built", "failed", "cleared", "pickled", "c
 \* a call that must answer answers the pointwise combination of its operands' values; a call that must
 \* fail does not answer (kinds are part of the result)
 EvalIsPointwise ==
-  last.what = "call" =>
-     /\ last.kind \in {"val", "fail", "either"}
-     /\ last.kind \in {"val", "either"} => \A a \in Args : last.vals[a] = EvalAt(tree, a, last.t)
+  /\ last.what = "call" =>
+       /\ last.kind \in {"val", "fail", "either"}
+       /\ last.kind \in {"val", "either"} => \A a \in Args : last.vals[a] = EvalAt(tree, a, last.t)
+  \* ... whatever memory the points arrive in, and whatever was there before
+  /\ last.what = "deliver" =>
+       /\ last.kind \in {"val", "fail", "either"}
+       /\ last.kind \in {"val", "either"} => last.vals = EvalAt(tree, last.a, last.t)
 TimeDepIffSomeOperand == orig.alive => orig.td = B2S(TimeDep(tree))
 EqIsStructural == last.what = "eq" => (last.res <=> (last.other = tree))
 NestingTotal == pc # "failed"
